@@ -25,12 +25,12 @@ LETTERS = 'ABCDEFGHJKLMNPQRSTUVWXYZ'
 #     |c_i - ref_i| <= ACC_F * (atol + rtol*|ref_i|)  +  ACC_G * rtol * max_j |ref_j|
 # the second term is the propagated global error of the dominant species into a minor one (LSODA controls the LOCAL error per
 # component; the global error of a species fed by a much larger one scales with the larger one).
-ACC_F = float(os.environ.get('C06_ACC_F', 50))
-ACC_G = float(os.environ.get('C06_ACC_G', 5))
+ACC_F = float(os.environ.get('C06_ACC_F', 10))
+ACC_G = float(os.environ.get('C06_ACC_G', 20))
 # accepted excursion below 0 / above the elemental bound ub_i:  BOUND_F * (atol + rtol*ub_i)   (true value 0 resp. <= ub_i)
-BOUND_F = float(os.environ.get('C06_BOUND_F', 50))
+BOUND_F = float(os.environ.get('C06_BOUND_F', 5))
 # accepted drift of an element total T = sum_j a_j c_j:  DRIFT_F * sum_j |a_j| (atol + rtol*max_t|c_j|)
-DRIFT_F = float(os.environ.get('C06_DRIFT_F', 50))
+DRIFT_F = float(os.environ.get('C06_DRIFT_F', 5))
 N_TOUT = 9
 
 
@@ -288,9 +288,9 @@ class C06(Property):
             '(zeros, single-species states = on a bound, wrong length), unbalanced systems (no callback), non-participating substances; '
             'states with a negative entry (model = code also outside the box; the only states on which the upper-bound branch decides); '
             'oracle on the same systems with random float states and rate constants over 8 decades. '
-            'EXPLORATION (sampled, not proof): first-order networks (branches, cycles, A -> 2 B, A -> B + C; k over 6-8 decades; 3 output '
-            'times over 6 decades; atol/rtol 1e-6..1e-10; default integrator and integrator="scipy") from text through from_string/'
-            'get_odesys/integrate vs exp(M t) c0 (scipy expm, mpmath 40 digits when |M| t > 100); A + B -> P, A + B <-> P, 2 A -> P vs '
+            'EXPLORATION (sampled, not proof): first-order networks (branches, cycles, A -> 2 B, A -> B + C; k over 2-8 decades; 9 output '
+            'times log-spaced from 0.01/k_max to the slowest time scale (1..5)/k_min; atol/rtol 1e-6..1e-10; default integrator and integrator="scipy") from text through from_string/'
+            'get_odesys/integrate vs exp(M t) c0 (scipy expm, mpmath 40 digits when |M| t > 100); A + B -> P, A + B <-> P (also [A]0 = [B]0 exactly and [B]0/[A]0 -> 1), 2 A -> P vs '
             'closed forms (own formula at 40 digits and chempy.kinetics.integrated); nonlinear networks: bounds and invariants only; '
             'about 40% of the integrations go through the UNIT-AWARE pipeline (get_odesys(unit_registry=SI_base_registry), rate constants in '
             'molar/millimolar/mol m-3 per second/minute, one of 6 concentration units PER initial concentration, c0 as dict / list / quantity '
@@ -299,13 +299,31 @@ class C06(Property):
             'Buckets "explore:*" count the integrations. A case is non-trivial when it is a distinct JSON value with >= 1 reaction.')
     assumptions = (
         'PARTIAL: accuracy and step control of the delegated integrator (pyodesys -> scipy LSODA) are runtime behaviour; sampled, not proved. '
-        'Accepted global error: %g*(atol + rtol*max|c|); accepted excursion outside [0, ub]: %g*(atol + rtol*scale)' % (ERR_FACTOR, BOUND_FACTOR),
+        'Accepted per component: |c_i - ref_i| <= %g*(atol + rtol*|ref_i|) + %g*rtol*max_j|ref_j|; excursion outside [0, ub_i] <= %g*(atol + rtol*ub_i); '
+        'drift of an element total <= %g*sum_j|a_j|(atol + rtol*max_t|c_j|) (factors from the measured distributions in notes/C06.md)' % (ACC_F, ACC_G, BOUND_F, DRIFT_F),
         'exact model vs Python floats on dyadic inputs: f and the bounds are exact, h is compared with relative tolerance 1e-11 '
         '(two roundings in (ub - y)/f amplified by ub/(ub - y) <= 5e3)',
         'numpy float division by a zero composition coefficient (inf/nan + RuntimeWarning) is outside the model (the model says ZeroDivisionError)',
         'quasi-positivity implies non-negativity of exact solutions by the classical invariance theorem for ODEs (Nagumo), not formalised here',
         'rate parameters are plain numbers (MassAction) in the Lean model; the unit-aware entry points are covered by the oracle only '
         '(SI_base_registry; the returned Euler step is then in seconds); include_params=False and user substitutions are C04/C10 subjects',
+    )
+    clauses_without_theorem = (
+        '"returns concentrations that agree, to the requested tolerance, with the exact solution" (matrix exponential / closed forms): '
+        'accuracy of the delegated adaptive integrator (pyodesys -> scipy LSODA; integrator=None and "scipy" are the same solver here, no '
+        'other back-end is installed) is SAMPLED only, per component with the measured factors; theorems cover only that exp(Mt)c0 / the '
+        'closed forms are the right references (first_order_is_linear, *_solves_system) — without a uniqueness theorem and, for first-order '
+        'networks, without a formal proof that t -> exp(Mt)c0 solves c\' = Mc',
+        '"concentrations never become negative beyond tolerance or exceed the supply of their constituent elements" ALONG computed '
+        'trajectories: sampled only. Proved are the tangent condition (quasi_positive), the Metzler structure, B.M = 0 and that any '
+        'non-negative state with the same totals is below the bound (upper_bound_valid); forward invariance of the orthant for exact '
+        'solutions (Nagumo / exp of a Metzler matrix is non-negative) is the classical theorem, NOT formalised, and says nothing about '
+        'the numerical trajectory',
+        '"from text input through to the result arrays": ReactionSystem.from_string -> get_odesys -> pyodesys plumbing (names order, unit '
+        'conversion callbacks, output arrays) is exercised by the exploration only; no theorem composes C12\'s parser model with sysRates',
+        'unit-aware entry points (get_odesys(unit_registry=...), quantities in and out) of integrate and max_euler_step_cb: oracle only',
+        'zero composition coefficients (numpy 0/0 -> nan instead of ZeroDivisionError) and include_params=False / substitutions: outside '
+        'the model and not generated',
     )
     anchors = (('chempy/kinetics/ode.py', 'get_odesys'), ('chempy/reactionsystem.py', 'ReactionSystem.upper_conc_bounds'),
                ('chempy/reactionsystem.py', 'ReactionSystem.rates'), ('chempy/reactionsystem.py', 'ReactionSystem.check_balance'),
@@ -314,7 +332,7 @@ class C06(Property):
 
     def __init__(self):
         self._cache = {}
-        self.meas = {'acc': [], 'acc_rest': [], 'neg': [], 'over': [], 'drift': []}     # calibration data (tools/harness/c06_calibrate.py)
+        self.meas = {'acc': [], 'acc_rest': [], 'neg': [], 'over': [], 'drift': []}     # measured ratios (calibration, see notes/C06.md)
 
     # ---- generation -------------------------------------------------------------------------
     def _kdy(self, rng, wide=False):
@@ -505,7 +523,7 @@ class C06(Property):
             with warnings.catch_warnings():
                 warnings.simplefilter('ignore')
                 odesys, extra = get_odesys(rsys)
-        except ValueError as e:
+        except (ValueError, TypeError) as e:       # ValueError: a substance without rate entry; TypeError: no reaction at all
             odesys, extra = e, None
         if len(self._cache) > 8:
             self._cache.clear()
@@ -520,8 +538,10 @@ class C06(Property):
             if op == 'max_euler_step_cb':
                 subs = list(zip(mc['keys'], mc['comps']))
                 rsys, odesys, extra = self._build([list(s) for s in subs], mc['rxns'])
-                if extra is None:                                   # pyodesys refused the system (a substance without rate)
-                    return '|'.join(['ValueError'] * len(mc['states']))
+                if extra is None:                                   # get_odesys / pyodesys refused the system
+                    if isinstance(odesys, TypeError) and rsys.check_balance(strict=True) is not True:
+                        return 'None'                               # (the model asks the gate first)
+                    return '|'.join([type(odesys).__name__] * len(mc['states']))
                 cb = extra['max_euler_step_cb']
                 if cb is None:
                     return 'None'
@@ -765,7 +785,7 @@ class C06(Property):
         err = abs(got - ref)
         local = atol + rtol * abs(ref)
         self.meas['acc'].append(err / local)
-        self.meas['acc_rest'].append(max(0.0, err - ACC_F * local) / (rtol * refmax))
+        self.meas['acc_rest'].append((err, local, rtol * refmax))
         tol = ACC_F * local + ACC_G * rtol * refmax
         if not err <= tol:
             return ('integrated %s(t=%g) = %r, exact solution %r: |diff| %.3g > %.3g = %g*(atol + rtol*|ref|) + %g*rtol*max|ref| '
@@ -857,27 +877,31 @@ class C06(Property):
                     return 'Euler step h=%r from trajectory state %r leaves [0, %r] for %s: %r' % (h, y, ub[i], names[i], yn)
         return None
 
-    def _bimol_exact(self, case, t):
-        """extent x(t) of A + B -> P (<- P) resp. 2 A -> P from the Riccati solution, 40 digits"""
+    def _bimol_exact(self, case, t, A, B):
+        """exact concentrations at time t (40 digits, then rounded once) of  A + B -> P (<- P)  resp.  2 A -> P:
+        extent x' = kf (a0 - x)(b0 - x) - kb (p0 + x) = kf (x - r1)(x - r2)  (Riccati);  equal roots / [A]0 = [B]0 without back
+        reaction: a(t) = 1/(1/a0 + kf t);  dimer: a' = -2 kf a^2, a(t) = 1/(1/a0 + 2 kf t)"""
         import mpmath
         with mpmath.workdps(40):
             mp = mpmath.mpf
             kf, kb, a0, b0, p0, t = mp(case['kf']), mp(case['kb']), mp(case['major']), mp(case['minor']), mp(case['prod']), mp(t)
             which = case['which']
-            if which == 'dimer':                                  # a' = -2 kf a^2
+            if which == 'dimer':
                 a = 1 / (1 / a0 + 2 * kf * t)
-                return float((a0 - a) / 2)
-            if which == 'irrev':
+                return {'A': float(a), 'P': float(p0 + (a0 - a) / 2)}
+            if which in ('irrev', 'equal'):
                 kb = mp(0)
-            # x' = kf (a0 - x)(b0 - x) - kb (p0 + x) = kf (x - r1)(x - r2)
-            bq = -(kf * (a0 + b0) + kb)
-            cq = kf * a0 * b0 - kb * p0
-            disc = mpmath.sqrt(bq * bq - 4 * kf * cq)
-            r1, r2 = (-bq - disc) / (2 * kf), (-bq + disc) / (2 * kf)
-            if r1 == 0:
-                return 0.0
-            e = mpmath.exp(-kf * (r2 - r1) * t)
-            return float(r1 * (1 - e) / (1 - (r1 / r2) * e))
+            if kb == 0 and a0 == b0:
+                a = 1 / (1 / a0 + kf * t)
+                x = a0 - a
+            else:
+                bq = -(kf * (a0 + b0) + kb)
+                cq = kf * a0 * b0 - kb * p0
+                disc = mpmath.sqrt(bq * bq - 4 * kf * cq)
+                r1, r2 = (-bq - disc) / (2 * kf), (-bq + disc) / (2 * kf)
+                e = mpmath.exp(-kf * (r2 - r1) * t)
+                x = mp(0) if r1 == 0 else r1 * (1 - e) / (1 - (r1 / r2) * e)
+            return {A: float(a0 - x), B: float(b0 - x), 'P': float(p0 + x)}
 
     def _oracle_bimol(self, case):
         from chempy.kinetics import integrated
@@ -891,7 +915,7 @@ class C06(Property):
         else:
             subs = [['A', [[1, 1]]], ['B', [[6, 1]]], ['P', [[1, 1], [6, 1]]]]
             rxns = [mk([['A', 1], ['B', 1]], [['P', 1]], case['kf'])]
-            if which == 'rev':
+            if which in ('rev', 'equal_rev'):
                 rxns.append(mk([['P', 1]], [['A', 1], ['B', 1]], case['kb']))
             c0d = OrderedDict([(A, case['major']), (B, case['minor']), ('P', case['prod'])])
         text = ' / '.join(rxn_text(r) for r in rxns)
@@ -901,32 +925,30 @@ class C06(Property):
         if isinstance(r, str):
             return r
         names, xout, yout, rsys, cb = r
-        scale = max(c0d.values())
-        tol = ERR_FACTOR * (case['atol'] + case['rtol'] * scale)
+        # the library's closed forms are compared where they are defined and well-conditioned (binary_irrev is 0/0 for
+        # [A]0 = [B]0 and cancels for [B]0/[A]0 -> 1); the accepted extra error is their own rounding error
+        lib_ok = case['minor'] <= 0.9 * case['major']
+        atol, rtol = self._atol(case), case['rtol']
         for t, row in zip(xout[1:], yout[1:]):
             got = dict(zip(names, map(float, row)))
-            x = self._bimol_exact(case, float(t))
-            if which == 'dimer':
-                want = {'A': case['major'] - 2 * x, 'P': case['prod'] + x}
-            else:
-                want = {A: case['major'] - x, B: case['minor'] - x, 'P': case['prod'] + x}
+            want = self._bimol_exact(case, float(t), A, B)
+            refmax = max(want.values())
             for k in names:
-                self.ratios.append(abs(got[k] - want[k]) * ERR_FACTOR / tol)
-                if abs(got[k] - want[k]) > tol:
-                    return ('integrated %s(t=%g) = %r, exact solution %r (|diff| %.3g > %.3g) [%s]'
-                            % (k, t, got[k], want[k], abs(got[k] - want[k]), tol, text))
-            # the library's own closed form (C17) against the same run
-            if which == 'irrev':
-                cf = integrated.binary_irrev(float(t), case['kf'], case['prod'], case['major'], case['minor'])
-            elif which == 'rev':
-                cf = integrated.binary_rev(float(t), case['kf'], case['kb'], case['prod'], case['major'], case['minor'])
-            else:
-                cf = None
-                a = integrated.dimerization_irrev(float(t), case['kf'], case['major'])
-                if abs(got['A'] - a) > tol:
-                    return 'integrated A(t=%g) = %r, dimerization_irrev gives %r' % (t, got['A'], a)
-            if cf is not None and abs(got['P'] - cf) > tol + 1e-9 * scale:
-                return 'integrated P(t=%g) = %r, chempy.kinetics.integrated.binary_%s gives %r' % (t, got['P'], which, cf)
+                f = self._accurate(case, k, t, got[k], want[k], refmax)
+                if f:
+                    return f + ' [%s]' % text
+            tolP = ACC_F * (atol + rtol * abs(want['P'])) + ACC_G * rtol * refmax + 1e-9 * refmax
+            cf = None
+            if which == 'irrev' and lib_ok:
+                cf = ('binary_irrev', 'P', integrated.binary_irrev(float(t), case['kf'], case['prod'], case['major'], case['minor']))
+            elif which in ('rev', 'equal_rev'):
+                cf = ('binary_rev', 'P', integrated.binary_rev(float(t), case['kf'], case['kb'], case['prod'], case['major'], case['minor']))
+            elif which == 'dimer':
+                cf = ('dimerization_irrev', 'A', integrated.dimerization_irrev(float(t), case['kf'], case['major']))
+            elif which == 'equal':      # A + B -> P with [A]0 = [B]0 = c0 is a' = -kf a^2, i.e. the dimerisation law with kf/2
+                cf = ('dimerization_irrev(kf/2)', A, integrated.dimerization_irrev(float(t), case['kf'] / 2, case['major']))
+            if cf is not None and not abs(got[cf[1]] - float(cf[2])) <= tolP:
+                return 'integrated %s(t=%g) = %r, chempy.kinetics.integrated.%s gives %r [%s]' % (cf[1], t, got[cf[1]], cf[0], float(cf[2]), text)
         f = self._admissible(case, subs, names, yout, c0d)
         if f:
             return f
